@@ -13,11 +13,14 @@
    Capacities (`ArrayBuilder::new(n)`, `VecDeque::with_capacity(n)`) have no observable effect and are not modelled.
    The JSON-text branches are those of Dispatch.v (tree level in the Rust code too), except array_insert, whose text
    branch re-encodes the parsed value and calls the binary walker.
+   Every function takes the caller's `buf: &mut Vec<u8>` as STATE (BufSt.v): `f_st args buf` = (the buffer as the call
+   leaves it, the outcome), so that "bytes pushed, then Err returned" is expressible (build_array / build_object do
+   it); `f_w` / `f_b` are the views that keep the buffer of a successful call only.
    Executable definitions only; EditWalkProofs.v proves that on encodings each walker appends exactly the encoding of
-   the tree-level answer (TreeOps.v). *)
+   the tree-level answer (TreeOps.v); EditStProofs.v / EditFrame.v / EditStEnc.v what the buffer holds after an error. *)
 From Coq Require Import List NArith ZArith Bool.
 Import ListNotations.
-From JB Require Import Constants Bytes Utf8 Num Value Codec TreeOps JsonText Dispatch Walk Iter Builder.
+From JB Require Import Constants Bytes Utf8 Num Value Codec TreeOps JsonText Dispatch Walk Iter Builder BufSt.
 Open Scope N_scope.
 
 (* read_u32(value, off)? *)
@@ -127,90 +130,119 @@ Definition single_item (bs : list N) (ty : N) : res (je * list N) :=
 Definition push_members (kes : list (list N * entry)) (items : list (list N * (je * list N))) : list (list N * entry) :=
   fold_left (fun acc it => obj_push acc (fst it) (raw_entry (snd it))) items kes.
 
+(* ------------------------------------------------------------------------------------------ *)
+(* The editors, with the caller's buffer as state (BufSt.v): `spure` = a statement that does not mention `buf`,
+   `swrite` = build_into(buf) / extend_from_slice / write_to_vec(buf).  `f_st args buf` = (the buffer as the call
+   leaves it, the outcome); `f_b` / `f_w` = the buffer of a successful call (BufSt.view).  *)
+
 (* concat_jsonb *)
-Definition concat_b (l r buf : list N) : res (list N) :=
-  do lh <- rd l 0;
-  do rh <- rd r 0;
+Definition concat_b_st (l r : list N) : stm unit :=
+  sdo lh <- spure (rd l 0);
+  sdo rh <- spure (rd r 0);
   let lt := hdr_type lh in
   let rt := hdr_type rh in
   if (lt =? OBJECT_CONTAINER_TAG) && (rt =? OBJECT_CONTAINER_TAG) then
-    do li <- obj_items l lh;
-    do ri <- obj_items r rh;
-    Ok (build_obj_into buf (push_members (push_members [] li) ri))
+    sdo li <- spure (obj_items l lh);
+    sdo ri <- spure (obj_items r rh);
+    swrite (fun buf => build_obj_into buf (push_members (push_members [] li) ri))
   else if (lt =? ARRAY_CONTAINER_TAG) && (rt =? ARRAY_CONTAINER_TAG) then
-    do li <- arr_items l lh;
-    do ri <- arr_items r rh;
-    Ok (build_arr_into buf (map raw_entry (li ++ ri)))
+    sdo li <- spure (arr_items l lh);
+    sdo ri <- spure (arr_items r rh);
+    swrite (fun buf => build_arr_into buf (map raw_entry (li ++ ri)))
   else if rt =? ARRAY_CONTAINER_TAG then
-    do le <- single_item l lt;
-    do ri <- arr_items r rh;
-    Ok (build_arr_into buf (map raw_entry (le :: ri)))
+    sdo le <- spure (single_item l lt);
+    sdo ri <- spure (arr_items r rh);
+    swrite (fun buf => build_arr_into buf (map raw_entry (le :: ri)))
   else if lt =? ARRAY_CONTAINER_TAG then
-    do li <- arr_items l lh;
-    do re <- single_item r rt;
-    Ok (build_arr_into buf (map raw_entry (li ++ [re])))
+    sdo li <- spure (arr_items l lh);
+    sdo re <- spure (single_item r rt);
+    swrite (fun buf => build_arr_into buf (map raw_entry (li ++ [re])))
   else
-    do le <- single_item l lt;
-    do re <- single_item r rt;
-    Ok (build_arr_into buf (map raw_entry [le; re])).
+    sdo le <- spure (single_item l lt);
+    sdo re <- spure (single_item r rt);
+    swrite (fun buf => build_arr_into buf (map raw_entry [le; re])).
+Definition concat_b (l r buf : list N) : res (list N) := view (concat_b_st l r buf).
 
-(* concat: if either side is not JSONB both are read with from_slice and the result is re-encoded (Dispatch.concat_m) *)
-Definition concat_w (l r buf : list N) : res (list N) :=
-  if negb (is_jsonb l) || negb (is_jsonb r) then concat_m l r buf else concat_b l r buf.
+(* concat: if either side is not JSONB both are read with from_slice (`?`), concatenated as trees, and the result is
+   written with write_to_vec(buf) *)
+Definition concat_st (l r : list N) : stm unit :=
+  if negb (is_jsonb l) || negb (is_jsonb r) then
+    sdo a <- spure (from_slice l);
+    sdo b <- spure (from_slice r);
+    write_value (concat_t a b)
+  else concat_b_st l r.
+Definition concat_w (l r buf : list N) : res (list N) := view (concat_st l r buf).
 
 (* delete_jsonb_by_name *)
 Definition name_matches (name : list N) (it : je * list N) : bool :=
   (fst (fst it) =? STRING_TAG) && bytes_eqb (snd it) name.
-Definition delete_by_name_b (bs name buf : list N) : res (list N) :=
-  do hdr <- rd bs 0;
+Definition delete_by_name_b_st (bs name : list N) : stm unit :=
+  sdo hdr <- spure (rd bs 0);
   let ty := hdr_type hdr in
   if ty =? OBJECT_CONTAINER_TAG then
-    do items <- obj_items bs hdr;
-    Ok (build_obj_into buf (push_members [] (filter (fun it => negb (bytes_eqb (fst it) name)) items)))
+    sdo items <- spure (obj_items bs hdr);
+    swrite (fun buf => build_obj_into buf (push_members [] (filter (fun it => negb (bytes_eqb (fst it) name)) items)))
   else if ty =? ARRAY_CONTAINER_TAG then
-    do items <- arr_items bs hdr;
-    Ok (build_arr_into buf (map raw_entry (filter (fun it => negb (name_matches name it)) items)))
-  else Err EInvalidJsonType.
-Definition delete_by_name_w (bs name buf : list N) : res (list N) :=
-  if is_jsonb bs then delete_by_name_b bs name buf else delete_by_name_m bs name buf.
+    sdo items <- spure (arr_items bs hdr);
+    swrite (fun buf => build_arr_into buf (map raw_entry (filter (fun it => negb (name_matches name it)) items)))
+  else spure (Err EInvalidJsonType).
+Definition delete_by_name_b (bs name buf : list N) : res (list N) := view (delete_by_name_b_st bs name buf).
+(* text: parse_value(value)?, the edit on the tree (`return Err(InvalidJsonType)` for a scalar), val.write_to_vec(buf) *)
+Definition delete_by_name_st (bs name : list N) : stm unit :=
+  if is_jsonb bs then delete_by_name_b_st bs name
+  else
+    sdo v <- spure (parse_value bs);
+    sdo y <- spure (delete_by_name_t v name);
+    write_value y.
+Definition delete_by_name_w (bs name buf : list N) : res (list N) := view (delete_by_name_st bs name buf).
 
 (* delete_jsonb_by_index: `len` and `index` are i32 (the count field has 29 bits; `len + index` is only computed for a
    negative index, I32.v); DBI_B_RESOLVE / DBI_B_SKIP are generated from the source (gen/Constants.v) *)
-Definition delete_by_index_b (bs : list N) (i : Z) (buf : list N) : res (list N) :=
-  do hdr <- rd bs 0;
+Definition delete_by_index_b_st (bs : list N) (i : Z) : stm unit :=
+  sdo hdr <- spure (rd bs 0);
   if hdr_type hdr =? ARRAY_CONTAINER_TAG then
     let len := Z.of_N (hdr_len hdr) in
     let index := DBI_B_RESOLVE i len in                                (* generated from delete_jsonb_by_index *)
-    if DBI_B_SKIP index len then Ok (buf ++ bs)          (* buf.extend_from_slice(value) *)
+    if DBI_B_SKIP index len then swrite (fun buf => buf ++ bs)          (* buf.extend_from_slice(value) *)
     else
-      do items <- arr_items bs hdr;                                     (* enumerate(): i != index *)
-      Ok (build_arr_into buf (map raw_entry (remove_at items (Z.to_N index))))
-  else Err EInvalidJsonType.
-Definition delete_by_index_w (bs : list N) (i : Z) (buf : list N) : res (list N) :=
-  if is_jsonb bs then delete_by_index_b bs i buf else delete_by_index_m bs i buf.
+      sdo items <- spure (arr_items bs hdr);                            (* enumerate(): i != index *)
+      swrite (fun buf => build_arr_into buf (map raw_entry (remove_at items (Z.to_N index))))
+  else spure (Err EInvalidJsonType).
+Definition delete_by_index_b (bs : list N) (i : Z) (buf : list N) : res (list N) := view (delete_by_index_b_st bs i buf).
+Definition delete_by_index_st (bs : list N) (i : Z) : stm unit :=
+  if is_jsonb bs then delete_by_index_b_st bs i
+  else
+    sdo v <- spure (parse_value bs);
+    sdo y <- spure (delete_by_index_t v i);
+    write_value y.
+Definition delete_by_index_w (bs : list N) (i : Z) (buf : list N) : res (list N) := view (delete_by_index_st bs i buf).
 
-(* array_insert_jsonb: AI_RESOLVE / AI_CLAMP / AI_NONARRAY_LEN are generated from the source (gen/Constants.v) *)
-Definition array_insert_b (bs : list N) (pos : Z) (nv buf : list N) : res (list N) :=
-  do hdr <- rd bs 0;
+(* array_insert_jsonb: AI_RESOLVE / AI_CLAMP / AI_NONARRAY_LEN are generated from the source (gen/Constants.v).
+   The items are collected, the first idx of them pushed, THEN the header of new_value is read (`?` twice) -- still
+   before anything is written: the only write is the build_into at the end *)
+Definition array_insert_b_st (bs : list N) (pos : Z) (nv : list N) : stm unit :=
+  sdo hdr <- spure (rd bs 0);
   let ty := hdr_type hdr in
   let len := if ty =? ARRAY_CONTAINER_TAG then Z.of_N (hdr_len hdr) else AI_NONARRAY_LEN in
   let idx := AI_CLAMP (AI_RESOLVE pos len) len in                      (* generated from array_insert_jsonb *)
-  do items <- (if ty =? ARRAY_CONTAINER_TAG then arr_items bs hdr
-               else if ty =? OBJECT_CONTAINER_TAG then Ok [container_item bs]
-               else do it <- scalar_item bs; Ok [it]);
+  sdo items <- spure (if ty =? ARRAY_CONTAINER_TAG then arr_items bs hdr
+                      else if ty =? OBJECT_CONTAINER_TAG then Ok [container_item bs]
+                      else do it <- scalar_item bs; Ok [it]);
   (* the first idx items (fewer if the iterator gave fewer), the new value, the rest *)
   let '(before, after) := split_at items (Z.to_N idx) in
-  do nh <- rd nv 0;
+  sdo nh <- spure (rd nv 0);
   let nt := hdr_type nh in
-  do ni <- (if (nt =? ARRAY_CONTAINER_TAG) || (nt =? OBJECT_CONTAINER_TAG) then Ok (container_item nv)
-            else scalar_item nv);
-  Ok (build_arr_into buf (map raw_entry (before ++ ni :: after))).
-(* array_insert: a text input is parsed and re-encoded (write_to_vec into a fresh Vec), then the binary walker runs *)
-Definition array_insert_w (bs : list N) (pos : Z) (nv buf : list N) : res (list N) :=
+  sdo ni <- spure (if (nt =? ARRAY_CONTAINER_TAG) || (nt =? OBJECT_CONTAINER_TAG) then Ok (container_item nv)
+                   else scalar_item nv);
+  swrite (fun buf => build_arr_into buf (map raw_entry (before ++ ni :: after))).
+Definition array_insert_b (bs : list N) (pos : Z) (nv buf : list N) : res (list N) := view (array_insert_b_st bs pos nv buf).
+(* array_insert: a text input is parsed and re-encoded (write_to_vec into a fresh local Vec), then the binary walker runs *)
+Definition array_insert_st (bs : list N) (pos : Z) (nv : list N) : stm unit :=
   if is_jsonb bs then
-    if is_jsonb nv then array_insert_b bs pos nv buf
-    else do x <- parse_value nv; array_insert_b bs pos (to_vec x) buf
+    if is_jsonb nv then array_insert_b_st bs pos nv
+    else sdo x <- spure (parse_value nv); array_insert_b_st bs pos (to_vec x)
   else
-    do v <- parse_value bs;
-    if is_jsonb nv then array_insert_b (to_vec v) pos nv buf
-    else do x <- parse_value nv; array_insert_b (to_vec v) pos (to_vec x) buf.
+    sdo v <- spure (parse_value bs);
+    if is_jsonb nv then array_insert_b_st (to_vec v) pos nv
+    else sdo x <- spure (parse_value nv); array_insert_b_st (to_vec v) pos (to_vec x).
+Definition array_insert_w (bs : list N) (pos : Z) (nv buf : list N) : res (list N) := view (array_insert_st bs pos nv buf).
